@@ -36,7 +36,7 @@ PRODUCERS = ["inline", "inline_angle", "image", "image_angle", "autolink", "ref_
 
 
 def floors(tier):
-    f = {"urls.token": 50000, "urls.html": 20000, "literal_twins_compared": 20000, "method_composition": 20000, "scheme_spellings_distinct": 500}
+    f = {"urls.token": 50000, "urls.html": 20000, "literal_twins_compared": 20000, "method_composition": 20000, "scheme_spellings_distinct": 500, "autolink.email": 2000}
     for p in PRODUCERS:
         f["emitted." + p] = 200
         f["rejected." + p] = 200 if not p.startswith("linkify") else 50
@@ -263,6 +263,10 @@ def run(ctx):
             if rng.random() < 0.6:
                 d = rng.choice(["javascript:alert(1)", "JaVaScRiPt:alert(1)", "data:text/html,x", "DATA:image/svg+xml,x", "vbscript:x", "file:c:/x",
                                 "www.ex.com/a?b=c&d", "a@b.co", "mailto:x@y.zz", "data:image/png;base64,xx", "www.é.com/ü"])
+        if prod == "autolink" and rng.random() < 0.3:
+            # e-mail autolinks: the local part may hold characters that are not URL-safe
+            d = rng.choice(["a{b@example.com", "100%@ex.com", "x|y@z.co", "q^r@s.tu", "a`b@c.de", "u}v@w.xy", "p%zz@q.rs", "ok@host.example", "A.B+c@d-e.fg", "a!#$&'*/=?b@c.d"])
+            ctx.count("autolink.email")
         conf = rng.choice(LBASES if prod.startswith("linkify") else BASES + LBASES[:1])
         tmpl = rng.choice(TEMPLATES[prod])
         ctx.sample({"producer": prod, "src": tmpl.replace("{d}", d), "conf": conf}, every=4999)
